@@ -41,6 +41,11 @@ pub assume_specification[ Ident::new ](s: &str, span: Span) -> (r: Ident)
     ensures id_view(&r) == s@;
 pub assume_specification[ Literal::usize_unsuffixed ](n: usize) -> (r: Literal)
     ensures lit_view(&r) == Tok::LitU(n as int);
+// the other unsuffixed integer constructors print the same token for the same VALUE (a narrowing cast before them changes the value)
+pub assume_specification[ Literal::u8_unsuffixed ](n: u8) -> (r: Literal) ensures lit_view(&r) == Tok::LitU(n as int);
+pub assume_specification[ Literal::u16_unsuffixed ](n: u16) -> (r: Literal) ensures lit_view(&r) == Tok::LitU(n as int);
+pub assume_specification[ Literal::u32_unsuffixed ](n: u32) -> (r: Literal) ensures lit_view(&r) == Tok::LitU(n as int);
+pub assume_specification[ Literal::u64_unsuffixed ](n: u64) -> (r: Literal) ensures lit_view(&r) == Tok::LitU(n as int);
 pub assume_specification[ Literal::string ](s: &str) -> (r: Literal)
     ensures lit_view(&r) == Tok::LitS(s@);
 
